@@ -2,9 +2,12 @@ package checks
 
 import (
 	"bytes"
+	"crypto/ecdsa"
+	"crypto/elliptic"
 	"crypto/sha256"
 	"encoding/hex"
 	"fmt"
+	"math/big"
 	"os"
 	"os/exec"
 	"strconv"
@@ -438,6 +441,29 @@ func c08cases(seed int64, i int, keys *gen.KeyRing) []c08case {
 		key = *k
 	case 2:
 		key = *cose.NewKeySymmetric(r.Bytes(16))
+		if i%3 == 0 {
+			// public points with x = 0 and keys found with a leading zero coordinate
+			curves := []elliptic.Curve{elliptic.P256(), elliptic.P384(), elliptic.P521()}
+			cv := curves[(i/3)%3]
+			p := cv.Params()
+			if y := new(big.Int).ModSqrt(p.B, p.P); y != nil {
+				if k, err := cose.NewKeyFromPublic(&ecdsa.PublicKey{Curve: cv, X: new(big.Int), Y: y}); err == nil {
+					key = *k
+				}
+			}
+		} else if i%3 == 1 {
+			cv := []elliptic.Curve{elliptic.P256(), elliptic.P384(), elliptic.P521()}[(i/3)%3]
+			for d := int64(2 + i%1000); d < int64(40000+i%1000); d++ {
+				kk := gen.ECKeyFromD(cv, big.NewInt(d))
+				size := (cv.Params().BitSize + 7) / 8
+				if kk.X.BitLen() <= 8*(size-1) || kk.Y.BitLen() <= 8*(size-1) {
+					if k, err := cose.NewKeyFromPrivate(kk); err == nil {
+						key = *k
+					}
+					break
+				}
+			}
+		}
 	default:
 		key = cose.Key{Type: cose.KeyType(70 + r.Intn(5)), Params: map[any]any{}}
 	}
